@@ -335,15 +335,21 @@ Represent(oid, s, fuel) ==
             n == Len(s.nh) + 1
             s1 == [s EXCEPT !.nh = Append(@, Node("m", "map", "", <<>>)),
                             !.reg = Append(@, <<oid, n>>)]
-            \* key nodes are plain str scalars created by represent_mapping
+            \* key nodes are plain str scalars created by represent_mapping.
+            \* The attributes are the __init__ parameters in order, then the
+            \* extras - or whatever _yatiml_attributes() returns, in its order
+            ParamIdx(nm) == CHOOSE j \in 1..np : c.params[j].name = nm
+            order == IF Len(c.yattrs) > 0 THEN [j \in DOMAIN c.yattrs |-> ParamIdx(c.yattrs[j])]
+                     ELSE [j \in 1..Len(o.f) |-> j]
             names == [j \in 1..Len(o.f) |-> IF j <= np THEN c.params[j].name ELSE "xk"]
             RECURSIVE Attrs(_, _, _)
-            Attrs(j, acc, st) ==
-                IF j > Len(o.f) THEN DR(acc, st)
-                ELSE LET kn == Len(st.nh) + 1
+            Attrs(jj, acc, st) ==
+                IF jj > Len(order) THEN DR(acc, st)
+                ELSE LET j == order[jj]
+                         kn == Len(st.nh) + 1
                          st1 == [st EXCEPT !.nh = Append(@, Node("s", "str", names[j], <<>>))]
                          r == Represent(o.f[j], st1, fuel - 1) IN
-                     Attrs(j + 1, acc \o <<kn, r.n>>, r.s)
+                     Attrs(jj + 1, acc \o <<kn, r.n>>, r.s)
             r == Attrs(1, <<>>, s1)
             s2 == [r.s EXCEPT !.nh[n].c = r.n] IN
         ReReg(oid, RunSweeten(SweChain(o.c), 1, n, s2))
